@@ -21,6 +21,8 @@ python3 tools/derive_unit.py contracts/C26/write_txn.toml contracts/C04/commit_o
 python3 tools/derive_unit.py contracts/C23/search_events.toml contracts/C26/search_events.toml C26 search_events 'visibility_ok' \
   --not-covered "the other event types and front ends (see the C23 unit), delete / revive"
 python3 tools/derive_unit.py contracts/C27/handler_selection.toml contracts/C49/authsession_new.toml C49 authsession_new 'valid_at' \
-  --not-covered "AuthSession::new_reauth, auth_ldap, OAuth2 drivers (other authentication paths of C49: see the other units; auth_with_unix_pass: unit unix_pass_auth)"
+  --not-covered "auth_ldap, OAuth2 drivers (other authentication paths of C49: see the other units; auth_with_unix_pass: unit unix_pass_auth)"
 python3 tools/derive_unit.py contracts/C44/cached_password.toml contracts/C45/offline_record.toml C45 offline_record 'latest_record' \
   --not-covered "Resolver::pam_account_authenticate_step storing the returned token, the online step's merge of extra keys, cache expiry and refresh (how current the cached record is)"
+python3 tools/derive_unit.py contracts/C27/handler_selection.toml contracts/C33/reauth_session.toml C33 reauth_session 'reauth_intent_ok|reauth_handler_ok' \
+  --not-covered "reauth_init (that the session is PrivilegeCapable and its credential id is the one passed here; soft-lock set-up), AuthSession::validate_creds / issue_uat for the Reauth intent (issue_uat: unit privilege_window)"
